@@ -60,7 +60,8 @@ theorem c19_sort_of_any_order (key : α → κ) (le : κ → κ → Bool)
     (hs : IsSortOf (fun a b => le (key a) (key b)) l' s) :
     s = sortBy (fun a b => le (key a) (key b)) l := by
   refine sorted_perm_unique key le antisymm l _ _ hnd ⟨hs.1.trans hp, hs.2⟩ ?_
-  exact sortBy_isSortOf _ (fun a b => total _ _) (fun a b c => trans _ _ _) l
+  exact sortBy_isSortOf (fun a b => le (key a) (key b)) (fun a b => total (key a) (key b))
+    (fun a b c => trans (key a) (key b) (key c)) l
 
 /-- Pattern *keys, then sort* (`for k := range m { ks = append(ks, k) }; sort.Strings(ks)`):
 whatever order the map is iterated in, the sorted key list is the same.  No distinctness is
@@ -133,7 +134,7 @@ theorem c19_generated_once (p : Prog) (useVendor : Bool) :
     · rename_i hn
       have h0 : (acc ++ [n]).Nodup := by
         rw [List.nodup_append]
-        exact ⟨h, List.nodup_singleton n, fun a ha b hb => by
+        exact ⟨h, by simp, fun a ha b hb => by
           rw [List.mem_singleton] at hb; subst hb; intro e; subst e; exact hn ha⟩
       generalize orderedIncludes (p.incs n) = l
       generalize acc ++ [n] = a0 at h0
@@ -155,7 +156,7 @@ the absolute paths are the output root followed by them (equivariance in `-out`)
 `Rel(Abs(out), Abs(outputDir))` is the namespace path for every working directory; and the
 identity of source files (keys of `CompiledFiles` / the html module map, absolute paths)
 is decided the same way under every source root. -/
-theorem c19_location_independent (i i' : Invocation) (us : List Unit) :
+theorem c19_location_independent (i i' : Invocation) (us : List GenUnit) :
     (emittedAbs i us).map (relTo i.outRoot) = (emittedAbs i' us).map (relTo i'.outRoot)
     ∧ (emittedAbs i us).map (relTo i.outRoot) = (emittedRel us).map some
     ∧ emittedAbs i us = (emittedRel us).map (fun r => i.outRoot ++ r)
@@ -238,7 +239,7 @@ example : insertAll (FMap.empty : FMap String Nat) [("b", 2), ("a", 1)] "b" = so
 example : insertAll (FMap.empty : FMap String Nat) [("a", 1), ("a", 2)] "a"
         ≠ insertAll (FMap.empty : FMap String Nat) [("a", 2), ("a", 1)] "a" := by decide
 
-def exUnits : List Unit := [⟨["n0", "pkg"], ["f_types.go", "f_foo_service.go"]⟩, ⟨["n1"], ["f_types.go"]⟩]
+def exUnits : List GenUnit := [⟨["n0", "pkg"], ["f_types.go", "f_foo_service.go"]⟩, ⟨["n1"], ["f_types.go"]⟩]
 def exI : Invocation := ⟨["tmp", "srcA"], ["tmp", "wd0"], true, ["tmp", "o", "gen"]⟩
 def exI' : Invocation := ⟨["elsewhere", "deeper", "copy"], ["home", "u"], false, ["x", "y"]⟩
 example : emittedAbs exI' exUnits =
